@@ -492,10 +492,13 @@ def check_term(acc, term):
 
 
 def _unit(unit):
-    ty, k, si, split = unit
+    ty, k, si, split = unit[:4]
+    stripe = unit[4] if len(unit) > 4 else None
     acc = Acc()
     en = enum()
     for i, term in enumerate(en.apply(en.sigs[si], k, only_split=split)):
+        if stripe and i % stripe[1] != stripe[0]:
+            continue
         check_term(acc, term)
         if i == 0:
             acc.sample({"filter": to_odata(uniquify(term)[0])}, cap=1)
@@ -532,9 +535,12 @@ def run(ctx):
                 en.terms(ty, j)
         units = [(typed.B, 3, si, split) for si, split in en.work_units(typed.B, 3)]
         B = 12
-        units = [u for i, u in enumerate(units) if i % B == ctx.seed % B]
+        # fixed core (seed independent): one comparator over every arithmetic / string / logic nesting of depth 3
+        core_sigs = {i for i, sg in enumerate(en.sigs) if sg.name in ("eq:II", "eq:SS", "not", "eq-null:I", "in:I")}
+        units = [u for i, u in enumerate(units) if i % B == ctx.seed % B or u[2] in core_sigs]
+        units = [u + ((j, 8),) for u in units for j in range(8)]        # stripes: even out the few very large units
         ctx.pmap(_unit, units)
-        ctx.layer("k3-block", block="%d of %d (VERIF_SEED mod %d)" % (ctx.seed % B, B, B), filters=int(ctx.counts["states"] - before),
+        ctx.layer("k3-core+block", core="every k=3 term under eq:II, eq:SS, not, eq-null:I, in:I", block="%d of %d (VERIF_SEED mod %d)" % (ctx.seed % B, B, B), filters=int(ctx.counts["states"] - before),
                   exhaustive=False, note="thorough covers all blocks")
     if not ctx.quick:
         before = ctx.counts["states"]
